@@ -25,8 +25,14 @@ RULE = ('integrands on Square/Cube for LinearForm / BilinearForm over scalar, ve
         'top-level summands that are individually non-linear but cancel by a polynomial identity inside one integrand '
         '((a+c)**2 - a**2 - c**2, a*(a+c) - a**2, ...).  Floating-point numbers (0.1, 0.2, 0.3, 0.7, 1e-3, 2.5, ...) are in the '
         'coefficient pool of linear and non-linear cases; 8 % of the cases are linear with SEVERAL float contributions to '
-        'one monomial, one hidden in a factor ((x+0.1)*t + 0.2*t [+ 0.7*t - 0.3*t]), also on boundaries.  A fixed corpus (u1*(u1-u2)*v1, f*(v1-v2)**2, x*y without test '
-        'function, x*v without trial function, int_Om(f*v+v**2)+int_Ga(x*v-v**2), (v+f)**2-v**2-f**2, (x+0.1)*v+0.2*v, (f+0.3)*v+0.7*v, ...) runs '
+        'one monomial, one hidden in a factor ((x+0.1)*t + 0.2*t [+ 0.7*t - 0.3*t]), also on boundaries.  5 % of the linear scalar '
+        'terms are NESTED operators holding the gradient of a product with two coefficients (dot(cross(grad(f*g*v), B), C), '
+        'inner(outer(grad(f*g*v), B), grad(C)), dot(convect(grad(f*g*v), B), C)); 7 % of the cases involve TWO INSTANCES of an '
+        'argument function (same name, space declared again with kind h1 or under another name: equal, different hash): '
+        'declared with one and written with the other, or both in one integrand (one more linear term; a product with one '
+        'factor per instance = quadratic).  A fixed corpus (u1*(u1-u2)*v1, f*(v1-v2)**2, x*y without test '
+        'function, x*v without trial function, int_Om(f*v+v**2)+int_Ga(x*v-v**2), (v+f)**2-v**2-f**2, (x+0.1)*v+0.2*v, (f+0.3)*v+0.7*v, '
+        'LinearForm(v_h1, f*v+grad(v).grad(f)), f*v*v_h1, dot(cross(grad(f*g*v), B), C), v*dot(convect(grad(f*g*v), B), C), ...) runs '
         'first on '
         'every seed.  One case = one constructor call; non-trivial = '
         'every case (the verdict is computed by substitution, re-evaluation and expansion); distinct by request line')
@@ -51,7 +57,7 @@ def mods():
     from sympy import Tuple, S, Rational, Matrix, ImmutableDenseMatrix, sin, exp, sqrt
     from sympde.topology import Square, Cube, ScalarFunctionSpace, VectorFunctionSpace, NormalVector
     from sympde.topology.space import ScalarFunction, VectorFunction
-    from sympde.calculus import grad, dot, div, inner, laplace, curl, cross
+    from sympde.calculus import grad, dot, div, inner, laplace, curl, cross, outer, convect, Laplace
     from sympde.topology.derivatives import dx, dy, dz
     from sympde.expr import BilinearForm, LinearForm, integral
     from sympde.expr.expr import Integral, IntAdd
@@ -80,6 +86,20 @@ class World:
         # further components of product arguments, taken from the SAME spaces
         self.ub, self.uc, self.vb, self.vc = mk(self.V, ['ub', 'uc', 'vb', 'vc'])
         self.Fb, self.Gb = mk(self.W, ['Fb', 'Gb'])
+        self.C = mk(self.W, ['C'])[0]       # a second coefficient vector field
+        # OTHER INSTANCES of the argument functions: the functions declared again, with the same names, in spaces declared
+        # again.  For sympde they are the same functions (== compares the names); they hash differently (the hash
+        # includes the space).  Two variants: 'h1' = the spaces declared again under the same names with kind='h1' (sympde
+        # types laplace(.) away on H1 functions: not used with laplace), 'name' = declared again under other names.
+        self.alt = {}
+        for var, Va, Wa in (('h1', m['ScalarFunctionSpace']('V08_%d' % k, self.domain, kind='h1'),
+                             m['VectorFunctionSpace']('W08_%d' % k, self.domain, kind='h1')),
+                            ('name', m['ScalarFunctionSpace']('V08_%d_again' % k, self.domain),
+                             m['VectorFunctionSpace']('W08_%d_again' % k, self.domain))):
+            for a in (self.u, self.ub, self.uc, self.v, self.vb, self.vc):
+                self.alt[var, a.name] = Va.element(a.name)
+            for a in (self.F, self.Fb, self.G, self.Gb):
+                self.alt[var, a.name] = Wa.element(a.name)
         self.k1 = m['Constant']('kap' + sfx)
         self.nn = m['NormalVector']('nn')
         self.D1 = [m['dx'], m['dy'], m['dz']][:self.dim]
@@ -137,9 +157,27 @@ def float_contributions(W, rng, tests, trials):
     return e
 
 
+def nested_lin(W, rng, v):
+    """linear in the scalar function v: an algebraic operator nested in another one, the inner one holding the gradient
+    of a product with two coefficients — after the substitution v -> l + r the product rule leaves a sum inside a product
+    inside a sum (f*g*(grad l + grad r) + (l + r)*(f*grad g + g*grad f)) in the inner operator"""
+    m = W.m
+    dot, cross, inner, outer, convect, grad = m['dot'], m['cross'], m['inner'], m['outer'], m['convect'], m['grad']
+    c1, c2 = rng.choice([(W.f, W.g), (W.f, W.g), (W.g, W.f), (W.f, W.x[0]), (W.x[1], W.g)])
+    gv = grad(c1 * c2 * v)
+    opts = [inner(outer(gv, W.B), grad(W.C)), dot(convect(gv, W.B), W.C), dot(W.C, convect(gv, W.B)),
+            inner(outer(gv, W.C), grad(W.B))]
+    if W.dim == 3:
+        opts += [dot(cross(gv, W.B), W.C), dot(W.C, cross(W.B, gv)), dot(cross(gv, W.C), W.B),
+                 dot(cross(gv, W.B), m['curl'](W.C))]
+    return rng.choice(opts)
+
+
 def lin_scalar(W, rng, v):
     """an expression linear in the scalar function v"""
     m = W.m
+    if rng.random() < P_NESTED:
+        return nested_lin(W, rng, v)
     d = rng.choice(W.D1)
     return rng.choice([v, d(v), m['laplace'](v), m['dot'](W.B, m['grad'](v)), d(rng.choice(W.D1)(v)),
                        m['dot'](m['grad'](v), m['grad'](W.f))])
@@ -306,7 +344,57 @@ def cancelling_terms(W, rng, tests, trials):
     return c * la ** 2 * o + la * (o - c * la * o)                                # = la o
 
 
+def alt(W, a, variant='h1'):
+    """another instance of the function a (equal to a, another hash)"""
+    return W.alt[variant, a.name]
+
+
+def other_instances(W, rng, case):
+    """rewrites a case with two INSTANCES of its argument functions: the declared argument is not the object the
+    integrand was written with (mode 'declared'), or both instances occur in the integrand (mode 'mixed': one more
+    linear term, or a product with one factor per instance — the square of a linear expression).  sympde identifies
+    functions by name, so do the ground truth (harness/inst.py instantiates by name) and the serialiser (Ser08)."""
+    m = W.m
+    bil, label = case['bilinear'], case['label']
+    var = 'h1' if (rng.random() < 0.5 and not case['expr'].atoms(m['Laplace'])) else 'name'
+    if rng.random() < 0.5 or not is_linear_label(label):
+        sides = rng.choice(['tests', 'trials', 'both']) if bil else 'tests'
+        for side in ('tests', 'trials'):
+            if sides in (side, 'both'):
+                g = list(case[side])
+                j = rng.randrange(len(g))
+                case[side] = [alt(W, a, var) if (i == j or rng.random() < 0.5) else a for i, a in enumerate(g)]
+        case['instances'] = 'declared-other:' + var
+        return case
+    if bil and rng.random() < 0.5:
+        side, grp, oth = 'trial', case['trials'], case['tests']
+    else:
+        side, grp, oth = 'test', case['tests'], case['trials']
+    a = rng.choice(grp)
+    o = lin_in_group(W, rng, oth) if oth else m['S'].One
+    if rng.random() < 0.5:
+        term = coef(W, rng) * lin_of(W, rng, alt(W, a, 'name')) * o
+        case['instances'] = 'mixed-linear'
+    else:
+        term = rng.choice([1, W.f, W.x[0]]) * lin_of(W, rng, a) * lin_of(W, rng, alt(W, a, 'name')) * o
+        case['label'] = side + ':self-product:other-instance'
+        case['instances'] = 'mixed-quadratic'
+    case['expr'] = case['expr'] + m['integral'](W.domain, term)
+    return case
+
+
+P_NESTED = 0.05        # share of the linear scalar terms that are nested operators
+P_INSTANCES = 0.07     # share of the cases rewritten with two instances of an argument function
+
+
 def make_case(W, rng):
+    case = make_case0(W, rng)
+    if rng.random() < P_INSTANCES:
+        case = other_instances(W, rng, case)
+    return case
+
+
+def make_case0(W, rng):
     """returns dict(kind, args…, expr, label) — the integral expression of a candidate form; `label` is the ground truth
     by construction: 'linear', or the class of the one edit that makes the integrand non-linear"""
     m = W.m
@@ -418,9 +506,12 @@ def corpus_cases(W):
     Ig2 = lambda e: m['integral'](W.faces[1], e)
     Fl = m['sympy'].Float
     grad, dot, div = m['grad'], m['dot'], m['div']
+    cross, inner, outer, convect = m['cross'], m['inner'], m['outer'], m['convect']
     u1, u2, u3, v1, v2, v3 = W.u, W.ub, W.uc, W.v, W.vb, W.vc
     F1, F2, G1, G2 = W.F, W.Fb, W.G, W.Gb
-    f, B, x, y = W.f, W.B, W.x[0], W.x[1]
+    f, g, B, C, x, y = W.f, W.g, W.B, W.C, W.x[0], W.x[1]
+    u1h, v1h, v2h, G1h = alt(W, u1), alt(W, v1), alt(W, v2), alt(W, G1)      # other instances of the same functions
+    fgv, fgu = grad(f * g * v1), grad(f * g * u1)
     dx = W.D1[0]
     L = lambda tests, e, lab: dict(bilinear=False, trials=[], tests=tests, expr=e, label=lab)
     Bi = lambda trials, tests, e, lab: dict(bilinear=True, trials=trials, tests=tests, expr=e, label=lab)
@@ -489,6 +580,52 @@ def corpus_cases(W):
         L([v1], I(dot(v1 * (B + F1), G1)), 'linear:unevaluated-dot'),
         L([v1], I(dot(grad(f * x * v1), B)), 'linear:unevaluated-dot'),
         Bi([u1], [v1], I(dot(u1 * (B + F1), grad(v1))), 'linear:unevaluated-dot'),
+        # the declared argument and its occurrences are different instances of the same function (equal by name,
+        # different hash: the space declared again with a kind): linear ones accepted …
+        L([v1h], I(f * v1 + dot(grad(v1), grad(f))) + Ib(v1), 'linear:other-instance'),
+        L([v1], I(f * v1 + dx(v1h)), 'linear:other-instance'),
+        L([v1h], I(x * v1h + f * dx(v1)) + Ig(v1), 'linear:other-instance'),
+        Bi([u1], [v1h], I(dot(grad(u1), grad(v1)) + u1 * v1), 'linear:other-instance'),
+        Bi([u1h], [v1], I(dot(grad(u1), grad(v1h)) + u1h * v1), 'linear:other-instance'),
+        L([G1h], I(dot(G1, B) + div(G1)), 'linear:other-instance'),
+        L([v1h, v2, G1h], I(dot(G1, B) + f * (v1 - v2h)), 'linear:other-instance'),
+        # … and quadratic ones, one factor per instance, rejected
+        L([v1], I(f * v1 * v1h), 'test:self-product:other-instance'),
+        L([v1h], I(v1 * dot(grad(v1h), grad(f))), 'test:self-product:other-instance'),
+        L([v1h], I(f * v1 ** 2), 'test:square'),
+        L([v1], I(x * v1) + Ig(v1 * v1h), 'boundary:test:self-product:other-instance'),
+        L([G1], I(dot(G1, G1h)), 'test:self-product:other-instance'),
+        L([G1], I(div(G1) * dot(G1h, B)), 'test:self-product:other-instance'),
+        Bi([u1], [v1], I(u1 * u1h * v1), 'trial:self-product:other-instance'),
+        Bi([u1], [v1h], I(u1 * v1 + f * u1 * v1 * dx(v1h)), 'test:self-product:other-instance'),
+        # an algebraic operator nested in another one, the inner one holding grad(f*g*v): linear, accepted
+        L([v1], I(inner(outer(fgv, B), grad(C))), 'linear:nested-operators'),
+        L([v1], I(dot(convect(fgv, B), C)), 'linear:nested-operators'),
+        L([v1], I(x * v1 + dot(C, convect(fgv, B))) + Ib(v1), 'linear:nested-operators'),
+        Bi([u1], [G1], I(dot(convect(fgu, B), G1)), 'linear:nested-operators'),
+        L([v1], I(dot(convect(grad(f * v1), B), C)), 'linear:nested-operators'),
+        L([G1], I(dot(convect(f * g * G1, B), C) + inner(outer(f * g * G1, B), grad(C))), 'linear:nested-operators'),
+        # … quadratic controls, rejected
+        L([v1], I(v1 * dot(convect(fgv, B), C)), 'test:self-product'),
+        L([v1], I(dot(convect(fgv, B), grad(v1))), 'test:self-product'),
+    ] + ([
+        # the scalar triple product (3D)
+        L([v1], I(dot(cross(fgv, B), C)), 'linear:nested-operators'),
+        L([v1], I(dot(C, cross(B, fgv))), 'linear:nested-operators'),
+        L([v1], Ib(dot(cross(W.nn, fgv), C)), 'linear:nested-operators'),
+        Bi([u1], [G1], I(dot(cross(fgu, B), G1)), 'linear:nested-operators'),
+        L([v1], I(dot(cross(grad(f * v1), B), C)), 'linear:nested-operators'),
+        L([v1], I(dot(cross(fgv, B), grad(v1))), 'test:self-product'),
+        L([v1], I(dot(cross(fgv, grad(f * v1)), C)), 'test:self-product'),
+    ] if W.dim == 3 else [
+        L([v1], I(f * v1 + inner(outer(grad(x * g * v1), B), grad(C))), 'linear:nested-operators'),
+        L([v1], I(dot(convect(grad(f * y * v1), C), B)) + Ig(v1), 'linear:nested-operators'),
+        L([v1], Ib(dot(convect(fgv, B), W.nn)), 'linear:nested-operators'),
+        Bi([u1, u2], [G1], I(dot(convect(grad(f * g * (u1 - u2)), B), G1)), 'linear:nested-operators'),
+        L([v1], I(inner(outer(grad(f * v1), B), grad(C))), 'linear:nested-operators'),
+        L([v1], I(inner(outer(fgv, B), grad(C)) * dx(v1)), 'test:self-product'),
+        L([v1], I(dot(convect(fgv, grad(v1)), C)), 'test:self-product'),
+    ]) + [
         # linear controls
         Bi([u1, u2], [v1, v2], I(u1 * v1 + dot(grad(u2), grad(v2))), 'linear'),
         Bi([u1, u2], [v1, v2], I(x * f * (u1 - u2) * v1) + Ib(u2 * v2), 'linear'),
@@ -524,7 +661,22 @@ def construct(case, m):
         return type(e).__name__
 
 
+class Ser08(Ser):
+    """the abstraction identifies functions as sympde's == does, by name: an occurrence of a function that is another
+    instance of a declared argument (same name, another space object) is serialised as that argument (the model compares
+    `sf name kind` structurally)"""
+    canon = {}
+
+    def ser(self, e):
+        if isinstance(e, (self.m['ScalarFunction'], self.m['VectorFunction'])):
+            c = self.canon.get(e.name)
+            if c is not None and c is not e:
+                return Ser.ser(self, c)
+        return Ser.ser(self, e)
+
+
 def request(ser, W, case, m):
+    ser.canon = {a.name: a for a in list(case['trials']) + list(case['tests'])}
     ints = [A('ints')] + [[A('int'), d, ser.ser(e)] for d, e in int_list(case['expr'], m)]
     if case['bilinear']:
         return 'C08 bilinear %d %s %s %s' % (W.dim, dumps([A('trials')] + [ser.ser(t) for t in case['trials']]),
@@ -561,7 +713,7 @@ def stream(stage, tier, seed, n, m):
         yield i, W, case, None
 
 
-N_CORPUS = 126     # 2 worlds x len(corpus_cases)
+N_CORPUS = 186     # 2 worlds x len(corpus_cases)
 
 
 def is_linear_label(label):
@@ -591,7 +743,7 @@ def impl_answer(verdict):
 def correspondence(ctx):
     m = mods()
     c = Corr()
-    ser = Ser()
+    ser = Ser08()
     n = (4000 if ctx.thorough else 600) + N_CORPUS
     cases = []
     for i, W, case, err in stream('corr', ctx.tier, ctx.seed, n, m):
@@ -606,6 +758,8 @@ def correspondence(ctx):
         except Exception as e:
             c.count('unserialisable:' + type(e).__name__)
             continue
+        if case.get('instances'):
+            c.count('instances:' + case['instances'])
         cases.append((line, verdict, case['label'], str(case['expr'])[:300], case['bilinear'], i,
                       group_shape(case, m)))
     outs = ctx.driver.run([x[0] for x in cases])
@@ -806,18 +960,26 @@ def oracle(ctx, factor, seeds):
             continue
         o.count('truth:%s:constructor:%s' % ('linear' if t else 'non-linear', verdict))
         o.count('built:' + case['label'])
+        if case.get('instances'):
+            o.count('instances:' + case['instances'])
         for sh in group_shape(case, m).split('|'):
             o.count('args:' + sh)
+        two = ''
+        if case.get('instances') or 'other-instance' in case['label']:
+            two = (' [two instances of an argument function are involved (%s): the same name, declared again in a space '
+                   'declared again; equal for sympde, different hash]' % (case.get('instances') or 'corpus'))
         if t and verdict != 'ok':
             o.fail('false-reject:' + str(case['expr'])[:300],
-                   'the integrand %s is additive and homogeneous in %s%s but the constructor raises the linearity error' % (
-                       str(case['expr'])[:300], case['tests'], (' and in %s' % case['trials']) if case['bilinear'] else ''),
-                   expr=str(case['expr']), label=case['label'], bilinear=case['bilinear'], stage='oracle', index=i)
+                   'the integrand %s is additive and homogeneous in %s%s but the constructor raises the linearity error%s' % (
+                       str(case['expr'])[:300], case['tests'], (' and in %s' % case['trials']) if case['bilinear'] else '', two),
+                   expr=str(case['expr']), label=case['label'], bilinear=case['bilinear'], stage='oracle', index=i,
+                   instances=case.get('instances'))
         elif (not t) and verdict == 'ok':
             o.fail('false-accept:' + str(case['expr'])[:300],
-                   'the integrand %s is not linear in its arguments (%s) but the %s form is accepted' % (
-                       str(case['expr'])[:300], case['label'], 'bilinear' if case['bilinear'] else 'linear'),
-                   expr=str(case['expr']), label=case['label'], bilinear=case['bilinear'], stage='oracle', index=i)
+                   'the integrand %s is not linear in its arguments (%s) but the %s form is accepted%s' % (
+                       str(case['expr'])[:300], case['label'], 'bilinear' if case['bilinear'] else 'linear', two),
+                   expr=str(case['expr']), label=case['label'], bilinear=case['bilinear'], stage='oracle', index=i,
+                   instances=case.get('instances'))
         if len(o.samples) < 4 and len(str(case['expr'])) < 160:
             o.samples.append({'expr': str(case['expr']), 'built': case['label'], 'truth': bool(t), 'constructor': verdict})
     return o
@@ -855,7 +1017,7 @@ def replay(ctx, path):
     print('REPLAY: case %s/%d: %s' % (stage, index, str(case['expr'])[:400]))
     print('REPLAY: constructor verdict: %s' % verdict)
     if stage == 'corr':
-        line = request(Ser(), W, case, m)
+        line = request(Ser08(), W, case, m)
         out = ctx.driver.run([line])[0]
         print('REPLAY: model verdict: %s' % out)
         if out != impl_answer(verdict):
